@@ -286,6 +286,7 @@ var C03OpenFindings = []C03Finding{
 	{"C03-aggregate-combined-with-bare-variable", C03AggregateCombinedWithBareVariable},
 	{"C03-with-order-by-alias", C03WithOrderByAlias},
 	{"C03-windowed-with-leaves-constraints-pending", C03WindowedWithLeavesConstraintsPending},
+	{"C03-return-order-by-reads-alias", C03ReturnOrderByReadsAlias},
 }
 
 // C03ExcludedBy returns the id of the first open finding whose shape the query has ("" = none).
@@ -1647,6 +1648,43 @@ func C03WithOrderByAlias(q *cypher.RegularQuery) bool {
 				if aliases[v.Symbol] && !computed[v.Symbol] {
 					return true
 				}
+				continue
+			}
+			for v := range c03VariablesIn(si.Expression) {
+				if aliases[v] {
+					return true
+				}
+			}
+		}
+	}
+	return false
+}
+
+// C03ReturnOrderByReadsAlias: the RETURN side of C03WithOrderByAlias. A bare RETURN alias as sort key is replaced by
+// the alias text (rewriteOrderByProjectionAlias, root identifiers only). Any other key that reads an alias of the
+// RETURN - a property of a renamed entity (`return n as m order by m.name`), an expression over a value alias
+// (`return n.value as v order by v + 1`) - keeps the alias's own binding (`order by (n1.properties -> 'name')`,
+// `order by i0 + 1`), which no FROM item of the final select carries. Shape: a RETURN whose ORDER BY has a key that
+// is not a bare variable and mentions an alias of that RETURN.
+func C03ReturnOrderByReadsAlias(q *cypher.RegularQuery) bool {
+	for _, c := range C03Clauses(q) {
+		if c.Return == nil || c.Return.Projection == nil || c.Return.Projection.Order == nil {
+			continue
+		}
+		aliases := map[string]bool{}
+		for _, it := range c.Return.Projection.Items {
+			if pi, ok := it.(*cypher.ProjectionItem); ok && pi != nil && pi.Alias != nil {
+				if v, plain := pi.Expression.(*cypher.Variable); plain && v != nil && v.Symbol == pi.Alias.Symbol {
+					continue // `n as n`
+				}
+				aliases[pi.Alias.Symbol] = true
+			}
+		}
+		for _, si := range c.Return.Projection.Order.Items {
+			if si == nil {
+				continue
+			}
+			if _, bare := si.Expression.(*cypher.Variable); bare {
 				continue
 			}
 			for v := range c03VariablesIn(si.Expression) {
